@@ -74,12 +74,39 @@ fn dump(path: &str) {
 	}
 }
 
+/// `vhelper origins <new root> <path>...`: makes <new root> the filesystem root of this process (chroot) and
+/// prints, for every path (given as seen from inside), the project origins and the project types of `/`.
+/// Lets a check put project markers into the filesystem root itself. "chroot-failed" if not permitted.
+fn origins_in_root(args: &[String]) {
+	let Some(root) = args.first() else { std::process::exit(3) };
+	let c = std::ffi::CString::new(root.as_bytes()).unwrap();
+	let rc = unsafe { libc::chroot(c.as_ptr()) };
+	if rc != 0 || std::env::set_current_dir("/").is_err() {
+		println!("chroot-failed {}", std::io::Error::last_os_error());
+		return;
+	}
+	let rt = tokio::runtime::Builder::new_current_thread().enable_all().build().unwrap();
+	for p in &args[1..] {
+		let got = rt.block_on(project_origins::origins(p));
+		let mut v: Vec<String> = got.iter().map(|o| hex(o.as_os_str().as_bytes())).collect();
+		v.sort();
+		println!("origins {} {}", hex(p.as_bytes()), v.join(" "));
+	}
+	let mut t: Vec<String> = rt.block_on(project_origins::types("/")).iter().map(|t| format!("{t:?}")).collect();
+	t.sort();
+	println!("root-types {}", t.join(" "));
+}
+
 fn main() {
 	if let Ok(p) = std::env::var("VERIF_DUMP") {
 		dump(&p);
 		return;
 	}
 	let args: Vec<String> = std::env::args().collect();
+	if args.get(1).map(String::as_str) == Some("origins") {
+		origins_in_root(&args[2..]);
+		return;
+	}
 	if args.get(1).map(String::as_str) != Some("run") {
 		eprintln!("vhelper: nothing to do");
 		std::process::exit(3);
@@ -122,7 +149,8 @@ fn main() {
 		i += 1;
 	}
 	// block the signals we want to observe and wait for them synchronously
-	let sigs = [libc::SIGTERM, libc::SIGINT, libc::SIGHUP, libc::SIGUSR1, libc::SIGUSR2, libc::SIGQUIT];
+	// (also signals nobody configured: a supervisor that sends, say, SIGCONT after every signal is seen)
+	let sigs = [libc::SIGTERM, libc::SIGINT, libc::SIGHUP, libc::SIGUSR1, libc::SIGUSR2, libc::SIGQUIT, libc::SIGCONT, libc::SIGALRM, libc::SIGWINCH, libc::SIGPIPE, libc::SIGURG];
 	let mut set: libc::sigset_t = unsafe { std::mem::zeroed() };
 	unsafe {
 		libc::sigemptyset(&mut set);
